@@ -227,6 +227,8 @@ def _efc_row(
   imp = dmin + imp_y * (dmax - dmin)
   imp = wp.clamp(imp, dmin, dmax)
   imp = wp.where(imp_x > 1.0, dmax, imp)
+  # flat impedance for a degenerate width, as in MuJoCo's getimpedance
+  imp = wp.where(solimp[2] <= types.MJ_MINVAL, 0.5 * (dmin + dmax), imp)
 
   # set outputs
   D_out[worldid, efcid] = 1.0 / wp.max(invweight * (1.0 - imp) / imp, types.MJ_MINVAL)
